@@ -42,6 +42,14 @@ pub struct IoSink {
     /// Every n-th call returns `Interrupted` without accepting anything.
     pub interrupt_every: usize,
     pub flush_fails: bool,
+    /// Transient fault: exactly this call (0-based, counted over non-empty
+    /// writes) is rejected with ErrorKind::Other and accepts nothing; every
+    /// other call is served normally.  `writes_after_error` counts the bytes
+    /// offered after the rejection.
+    pub reject_call: Option<usize>,
+    pub data_calls: usize,
+    pub rejected: bool,
+    pub offered_after_error: usize,
     /// Runaway guard: more than this is refused and `overflow` is set.
     pub cap: usize,
     pub overflow: bool,
@@ -59,6 +67,10 @@ impl Default for IoSink {
             chunk: Chunk::All,
             interrupt_every: 0,
             flush_fails: false,
+            reject_call: None,
+            data_calls: 0,
+            rejected: false,
+            offered_after_error: 0,
             cap: 1 << 24,
             overflow: false,
             calls: 0,
@@ -86,6 +98,15 @@ impl Write for IoSink {
         if self.interrupt_every != 0 && self.calls % self.interrupt_every == 0 {
             return Err(io::Error::new(ErrorKind::Interrupted, "injected interrupt"));
         }
+        if self.rejected {
+            self.offered_after_error += buf.len();
+        }
+        if Some(self.data_calls) == self.reject_call && !self.rejected {
+            self.rejected = true;
+            self.errors += 1;
+            return Err(io::Error::new(ErrorKind::Other, "injected transient write failure"));
+        }
+        self.data_calls += 1;
         let mut n = self.chunk.next(self.calls, buf.len());
         if self.data.len() + n > self.cap {
             self.overflow = true;
@@ -173,13 +194,17 @@ pub struct NoStdSink {
     pub data: Vec<u8>,
     pub writes: Vec<(usize, usize)>,
     pub fail_call: Option<usize>,
+    /// The failure is transient: later calls are accepted again.
+    pub transient: bool,
+    pub failed: bool,
     pub flush_fails: bool,
     pub flushes: usize,
 }
 
 impl epserde::ser::WriteNoStd for NoStdSink {
     fn write_all(&mut self, buf: &[u8]) -> epserde::ser::Result<()> {
-        if Some(self.writes.len()) == self.fail_call {
+        if Some(self.writes.len()) == self.fail_call && !(self.transient && self.failed) {
+            self.failed = true;
             return Err(epserde::ser::Error::WriteError);
         }
         self.writes.push((self.data.len(), buf.len()));
